@@ -4,7 +4,7 @@ import os, glob, runpy
 PROPS = {}
 NOT_APPLICABLE = {}
 # /repo commits that add cfg(inputlayer_verif) hooks
-HOOK_COMMITS = ['48037f1']
+HOOK_COMMITS = ['48037f1', '18d37c5', '74a2aec', '9f917d6', 'fcf7241']
 _d = os.path.join(os.path.dirname(os.path.abspath(__file__)), 'props.d')
 for _f in sorted(glob.glob(os.path.join(_d, 'C*.py'))):
     _pid = os.path.basename(_f)[:-3]
